@@ -435,12 +435,17 @@ def list_repeat(I, st, a, n):
 
 def list_concat(I, st, a, b):
     A, B = I.arr_of(a, st), I.arr_of(b, st)
-    if isinstance(A.etype, str) and A.etype.startswith("opaque") and I.concrete_int(B.shape[0]) is not None:
-        # appending freshly built objects to a sequence of foreign ones: seen through the same (opaque) interface
-        items = [B.elem(i) for i in range(I.concrete_int(B.shape[0]))]
-        if any(isinstance(x, Obj) for x in items):
-            items = [as_opaque(I, st, x) if isinstance(x, Obj) else x for x in items]
-            B = Arr(B.shape, lambda i, items=items: I._pick(items, i), kind=B.kind, etype=A.etype)
+
+    def _opaque_side(X, Y):
+        # freshly built objects joined with a sequence of foreign ones: seen through the same (opaque) interface
+        if isinstance(X.etype, str) and X.etype.startswith("opaque") and I.concrete_int(Y.shape[0]) is not None:
+            items = [Y.elem(i) for i in range(I.concrete_int(Y.shape[0]))]
+            if any(isinstance(x, Obj) for x in items):
+                items = [as_opaque(I, st, x) if isinstance(x, Obj) else x for x in items]
+                return Arr(Y.shape, lambda i, items=items: I._pick(items, i), kind=Y.kind, etype=X.etype)
+        return Y
+    B = _opaque_side(A, B)
+    A = _opaque_side(B, A)
     la, lb = A.shape[0], B.shape[0]
     ca, cb = I.concrete_int(la), I.concrete_int(lb)
     if ca is not None and cb is not None:
